@@ -47,7 +47,8 @@ ASSUMPTIONS = [
 ]
 RULE = ('structured random programs (straight-line blocks, forward bne over blocks, down-counter loops nested <= 2, dense RAW '
         'reuse of the last 3 destinations, load-use, store->load same/neighbouring word, pointers through memory, far-base '
-        'addressing with negative offsets, csrr/csrw in loops, register-file dump epilogue), rejection-sampled with the ISA '
+        'addressing with negative offsets, csrr/csrw in loops, register-file dump epilogue) + far-branch family (taken bne with '
+        '|offset| 2044..4096 bytes both directions over filler) + directed boundary-immediate programs, rejection-sampled with the ISA '
         'oracle; x timing configs (src/sink delay 0-5, stall prob {0,.3,.6}, latency 1-5) x {FL,CL,RTL}; '
         'non-trivial = program stores and takes a backward branch or runs >= 60 instructions; distinct = (program text, inputs, timing, level)')
 
@@ -70,6 +71,19 @@ def gen_inst(rng):
   if name == 'bne': return (name, 0, r(), r(), i13())
   csr = rng.choice([0xFC0, 0x7C0, 0x7E0, 0x7FF, 0, 0xFFF]) if rng.random() < 0.7 else rng.randint(0, 4095)
   return ('csrr', r(), 0, 0, csr) if name == 'csrr' else ('csrw', 0, r(), 0, csr)
+
+def boundary_insts():
+  """every instruction type at the extremes of each field (present in every run, not left to chance)"""
+  out = []
+  for rd, rs1, rs2 in [(0, 0, 0), (31, 31, 31), (1, 0, 31), (31, 1, 0), (0, 31, 1)]:
+    out += [(n, rd, rs1, rs2, 0) for n in ('add', 'and', 'sll', 'srl')]
+    for imm in (-2048, -2047, -1, 0, 1, 2046, 2047):
+      out += [('addi', rd, rs1, 0, imm), ('lw', rd, rs1, 0, imm), ('sw', 0, rs1, rs2, imm)]
+    for off in (-4096, -4094, -4092, -2050, -2048, -2046, -2, 0, 2, 2046, 2048, 2050, 4092, 4094):
+      out.append(('bne', 0, rs1, rs2, off))
+    for csr in (0, 0x7C0, 0xFC0, 0x7E0, 0x7FF, 0xFFF):
+      out += [('csrr', rd, 0, 0, csr), ('csrw', 0, rs1, 0, csr)]
+  return out
 
 def inst_text(i):
   name, rd, rs1, rs2, imm = i
@@ -116,7 +130,7 @@ def repo_decode(w):
 def check_encoding(ck, n):
   from examples.ex03_proc.tinyrv0_encoding import assemble_inst
   rng = ck.rng
-  insts = [gen_inst(rng) for _ in range(n)]
+  insts = boundary_insts() + [gen_inst(rng) for _ in range(n)]
   pcs = [u.TEXT + 4 * rng.randint(0, 500) for _ in insts]
   asm = [int(assemble_inst({}, pc, inst_text(i))) for i, pc in zip(insts, pcs)]
   enc = ck.drv('rv').batch([leanio.line('rv', 'encode', *model_fields(i)) for i in insts])
@@ -182,6 +196,12 @@ DIRECTED = [
    "csrr x1, mngr2proc\naddi x11, x1, 2047\nsw x7, -2047(x11)\nlw x12, 0(x1)\naddi x13, x0, -1\nand x14, x13, x12\n"
    "csrw proc2mngr, x7\ncsrw proc2mngr, x8\ncsrw proc2mngr, x9\ncsrw proc2mngr, x10\ncsrw proc2mngr, x12\ncsrw proc2mngr, x14\n",
    [0x80000001, 0xffffffe1, 0x2040]),
+  # boundary immediates of every type: addi/lw/sw with imm = -2048 and 2047, shift amounts 31/32/33 from registers
+  ("csrr x1, mngr2proc\ncsrr x5, mngr2proc\naddi x6, x1, 2047\naddi x6, x6, 1\nsw x5, -2048(x6)\nlw x7, -2048(x6)\n"
+   "addi x8, x1, -2047\nsw x7, 2047(x8)\naddi x8, x8, -4\nlw x9, 2047(x8)\naddi x10, x0, -2048\naddi x11, x0, 2047\n"
+   "addi x12, x0, 31\naddi x13, x0, 32\naddi x14, x0, 33\nsll x15, x5, x12\nsll x16, x5, x13\nsll x17, x5, x14\n"
+   "srl x18, x5, x12\nsrl x19, x5, x13\nsrl x20, x5, x14\nsrl x21, x10, x12\nsll x22, x11, x14\n"
+   + ''.join(f"csrw proc2mngr, x{r}\n" for r in range(5, 23)), [0x2040, 0x80000003]),
   # pointer chasing: each load feeds the next address
   ("csrr x1, mngr2proc\nsw x1, 0(x1)\nlw x2, 0(x1)\nlw x2, 0(x2)\nlw x2, 0(x2)\naddi x2, x2, 8\nsw x2, 0(x1)\nlw x1, 0(x1)\nsw x1, 0(x1)\nlw x5, 0(x1)\n"
    "csrw proc2mngr, x5\ncsrw proc2mngr, x2\n", [0x2020]),
@@ -283,9 +303,13 @@ def check_assembled(ck, pr, enc_replies):
     elif e != str(a):
       ck.disagreement('Model.encode≈tinyrv0_encoding.assemble', case, e, str(a))
 
-def check_programs(ck, nprog, ncfg, sizes, fuel):
+def check_programs(ck, nprog, ncfg, sizes, fuel, nfar=0, far_ncfg=1):
   rng = ck.rng
   progs = [directed_program(t, i, rng) for t, i in DIRECTED]
+  for _ in range(nfar):                              # far-branch family: taken bne with |offset| around / above 2048 bytes
+    p = u.gen_far_program(rng, fuel); p['far'] = True
+    for d in p['hops']: ck.hist('far_branch_offset', d if abs(d) >= 2040 else 'other')
+    progs.append(p)
   for _ in range(nprog):
     progs.append(u.gen_program(rng, rng.choice(sizes), fuel))
   ck.hist('generator', 'rejected_attempts', sum(max(0, p['attempts'] - 1) for p in progs))
@@ -299,7 +323,9 @@ def check_programs(ck, nprog, ncfg, sizes, fuel):
   enc = ck.drv('rv').batch(enc_lines)
   for p, rep, (a, b) in zip(progs, replies, spans):
     if p['insts']: check_assembled(ck, p, enc[a:b])
-    eval_program(ck, p, rep, [rand_cfg(rng, tight=(k == 0 and rng.random() < 0.7)) for k in range(ncfg)], fuel)
+    if p.get('far'): cfgs = [rand_cfg(rng, tight=(k == 0)) for k in range(far_ncfg)]
+    else: cfgs = [rand_cfg(rng, tight=(k == 0 and rng.random() < 0.7)) for k in range(ncfg)]
+    eval_program(ck, p, rep, cfgs, fuel)
     if len(ck.violations) > 20: break
 
 #=========================================================================
@@ -346,8 +372,8 @@ def run(ck):
   check_encoding(ck, 400 if quick else 6000)
   exhaustive_decode(ck, quick)
   check_cksum(ck, 150 if quick else 3000)
-  if quick: check_programs(ck, 34, 2, [25, 50, 80, 120], 4000)
-  else: check_programs(ck, 440, 2, [20, 40, 60, 90, 140, 200], 6000)
+  if quick: check_programs(ck, 32, 2, [25, 50, 80, 120], 4000, nfar=3, far_ncfg=1)
+  else: check_programs(ck, 420, 2, [20, 40, 60, 90, 140, 200], 6000, nfar=40, far_ncfg=2)
 
 def replay(ck, data):
   c = data['case']
